@@ -310,6 +310,47 @@ func runC07(p *core.Program, r *core.Report) {
 					}
 					c.ob("AG7", fname, fmt.Sprintf("miss result #%d", i), p.InstrPos(ret), okz || isZeroConst(res[i]), "the not-found path must return zero values")
 				}
+				// ... and the not-found answer is given only where the designated entry is
+				// known not to exist (every way into the return carries the failed map
+				// lookup resp. the sentinel test)
+				absent := func(blk *ssa.BasicBlock) bool {
+					if strings.HasPrefix(s.origin, "c.items[") {
+						return boolGuard(fn, blk, func(v ssa.Value) bool { return x.path(v) == "ok("+s.origin+")" }, false)
+					}
+					return hasFact(edgeFacts(x, fn, blk), s.origin, "==", "&c.evictList.root")
+				}
+				absentEdge := func(from, to *ssa.BasicBlock) bool {
+					if absent(from) {
+						return true
+					}
+					iff := path.BlockIf(from)
+					if iff == nil || len(from.Succs) != 2 {
+						return false
+					}
+					v, truth, _ := condEdge(from, 0)
+					if from.Succs[1] == to {
+						truth = !truth
+					}
+					if strings.HasPrefix(s.origin, "c.items[") {
+						return x.path(v) == "ok("+s.origin+")" && !truth
+					}
+					for _, f := range edgeFactsInto(x, fn, from, to) {
+						if (f.X == s.origin && f.Rel == "==" && f.Y == "&c.evictList.root") || (f.Y == s.origin && f.Rel == "==" && f.X == "&c.evictList.root") {
+							return true
+						}
+					}
+					return false
+				}
+				okAbs := absent(b)
+				if !okAbs && len(b.Preds) > 0 {
+					okAbs = true
+					for _, pr := range b.Preds {
+						if !absentEdge(pr, b) {
+							okAbs = false
+						}
+					}
+				}
+				c.ob("PT3", fname, "not-found only for an absent entry", p.InstrPos(ret), okAbs, "the not-found answer is reachable on a path where the designated entry was not looked up and found missing: an entry that is held can be reported as absent")
 				continue
 			}
 			// success return
